@@ -1627,6 +1627,10 @@ func main() {
 			"that fails at EVERY invocation, every unresolvable name, a referenced template with a syntax error) is rendered three times on the same engine, template cache " +
 			"on and off — every render must fail with the cause reachable; and every fault is switched on and off between five renders on one engine (template replaced by a " +
 			"failing version through RegisterString / through the loader with cache off / with auto-reload, and back; loader or callback that starts to fail and recovers). " +
+			"FAILING RELOADS (cache on + auto-reload + a loader with modification times): after a successful render the modification time of one template — the one named in the " +
+			"render call, or one reached by include / extends / import / from — moves forward and the reload fails (the loader's Load returns an error; the new source has a syntax " +
+			"error), through Engine.Render, Engine.RenderTo and Load + Template.Render (thorough: also the debug modes and a kept template handle): the render must fail with the " +
+			"cause reachable, never serve the cached copy with a nil error. " +
 			"Expression forms include a filter applied to a base that itself contains another filter outside the chain (call argument, list, hash, parenthesised operand, " +
 			"ternary arm, filter argument, item access; one and two deep), every filter failing / unknown in turn; the call sites of these branch-free forms count as reached " +
 			"whenever one of them is invoked (an engine that skips one of them still has to report an unknown name there). " +
@@ -1659,6 +1663,14 @@ func runAll(t *vlib.T) {
 	useModes := quickModes
 	if t.Thorough() {
 		useModes = modes
+	}
+	// debug aid: C17_ONLY=reload runs the baselines and the failing-reload family (phase 5b) only — for looking at
+	// that family alone on a loaded machine; never set by run.sh, the evidence of such a run says exhaustive for
+	// that family only
+	onlyReload := os.Getenv("C17_ONLY") == "reload"
+	if onlyReload {
+		useModes = []string{"R"}
+		t.Note("C17_ONLY=reload: only the baselines (mode R) and the failing-reload family are enumerated")
 	}
 	// in the quick tier the depth-2 programs run in the plain and the debug mode only
 	skip := func(pr *program, mode string) bool {
@@ -1712,6 +1724,9 @@ func runAll(t *vlib.T) {
 	}
 	// phase 1: single faults, mode by mode (plain mode first)
 	for _, mode := range useModes {
+		if onlyReload {
+			break
+		}
 		for i, pr := range progs {
 			if t.Stopped() {
 				return // the deadline was reached: the rest of the enumeration is not covered (exhaustive:false)
@@ -1754,6 +1769,9 @@ func runAll(t *vlib.T) {
 	nameModes := []string{"R", "D"}
 	if t.Thorough() {
 		nameModes = []string{"R", "D", "V", "W", "T"}
+	}
+	if onlyReload {
+		nameModes = nil
 	}
 	for _, mode := range nameModes {
 		for i, pr := range progs {
@@ -1883,6 +1901,9 @@ func runAll(t *vlib.T) {
 		return []string{"R", "D"}
 	}
 	for _, cache := range []string{"on", "off"} {
+		if onlyReload {
+			break
+		}
 		for i, pr := range progs {
 			if t.Stopped() {
 				return // the deadline was reached: the rest of the enumeration is not covered (exhaustive:false)
@@ -1974,6 +1995,9 @@ func runAll(t *vlib.T) {
 		seqModes = []string{"R", "D"}
 	}
 	for _, mode := range seqModes {
+		if onlyReload {
+			break
+		}
 		for i, pr := range progs {
 			if t.Stopped() {
 				return // the deadline was reached: the rest of the enumeration is not covered (exhaustive:false)
@@ -2051,8 +2075,78 @@ func runAll(t *vlib.T) {
 			}
 		}
 	}
-	// phase 3 (thorough): every pair of armed invocations; the one that fires first must win
+	// phase 5b: FAILING RELOADS (cache on + auto-reload + a loader with modification times). The program is rendered
+	// successfully, so every template it reaches is cached; then the modification time of ONE template (the one
+	// named in the render call, or one reached by include / extends / import / from) moves forward and the reload
+	// fails — the loader's Load returns an error (`reload|L:name#*`), or the new source has a syntax error
+	// (`reload|syntax:top` for the top template in every mode; `reload|syntax:Tn` for the references in the
+	// entry points phase 5 does not use). Sequence H F F H F as above; every render made while the reload fails
+	// must return "" and an error wrapping the cause, never output of the cached copy with a nil error.
+	// Quick: the phase-5 subset of the flat corpus through Engine.Render, Engine.RenderTo, Load + Template.Render;
+	// thorough: the whole flat corpus also in the debug modes and with a kept template handle (K: nested
+	// templates only — the handle itself legitimately stays what it was), the nested corpus of the subset in R.
+	reloadModes := []string{"R", "W", "T"}
 	if t.Thorough() {
+		reloadModes = []string{"R", "D", "W", "WD", "T", "K"}
+	}
+	for _, mode := range reloadModes {
+		inSeq := false
+		for _, m := range seqModes {
+			inSeq = inSeq || m == mode
+		}
+		for i, pr := range progs {
+			if t.Stopped() {
+				return // the deadline was reached: the rest of the enumeration is not covered (exhaustive:false)
+			}
+			t.Progress()
+			b := bases[i]
+			if !b.ok {
+				continue
+			}
+			subset := nestedExprForms[pr.form] || nestedSeqForms[pr.form] || pr.form == "-"
+			switch {
+			case !pr.nested && (t.Thorough() || subset || pr.pos.hole == 'N'):
+			case pr.nested && t.Thorough() && subset && mode == "R":
+			default:
+				continue
+			}
+			pfx := pr.id + "|" + mode + "|seq|"
+			want := b.out
+			for _, key := range b.keys {
+				if key[0] != 'L' || (mode == "K" && key[2:] == pr.top) {
+					continue
+				}
+				pr, mode, key := pr, mode, key
+				t.Case(pfx+"reload|"+key+"#*", func() *vlib.Outcome {
+					return seqCase(pr, mode, "reload", "armtouch", "loaderfail", site{}, key, want, "the cached template "+key[2:]+" changes (its modification time moves forward) and the loader fails for every Load of it, then recovers")
+				})
+			}
+			if mode == "K" {
+				continue
+			}
+			if b.counts["L:"+pr.top] > 0 {
+				pr, mode := pr, mode
+				t.Case(pfx+"reload|syntax:top", func() *vlib.Outcome {
+					return seqCase(pr, mode, "reload", "src", "syntax", site{Key: "top", Ref: pr.top}, "", want, "the template "+pr.top+" named in the render call is replaced by one with a syntax error and back")
+				})
+			}
+			if inSeq {
+				continue // phase 5 has the references in this mode
+			}
+			for _, st := range pr.sites {
+				if st.Kind != 'T' || b.counts["L:"+st.Ref] == 0 {
+					continue
+				}
+				st := st
+				pr, mode := pr, mode
+				t.Case(pfx+"reload|syntax:"+st.Key, func() *vlib.Outcome {
+					return seqCase(pr, mode, "reload", "src", "syntax", st, "", want, "template "+st.Ref+" (referred to at site "+st.Key+") replaced by one with a syntax error and back")
+				})
+			}
+		}
+	}
+	// phase 3 (thorough): every pair of armed invocations; the one that fires first must win
+	if t.Thorough() && !onlyReload {
 		for _, mode := range []string{"R", "D"} {
 			for i, pr := range progs {
 				if t.Stopped() {
